@@ -1,7 +1,7 @@
 (* Props/C04.v — Apply performs exactly the previewed plan and never leaks across targets.
    Statements only; proofs in Proofs/DeployP.v.  plan / preview / deploy (dry) / deploy --apply all
    go through [deploy_cmd]'s first component (one function: read_only_context_in). *)
-From AP Require Import Base.Str Gen.Tables Model.Deploy Proofs.DeployP Proofs.RerunP.
+From AP Require Import Base.Str Gen.Tables Model.Deploy Proofs.DeployP Proofs.RerunP Proofs.DeployEchoP.
 Open Scope N_scope.
 
 (* whatever changes on disk is a path of the announced plan or a per-root manifest of a root of
@@ -77,6 +77,25 @@ Proof.
 Qed.
 Print Assumptions C04_target_isolation.
 
+(* the plan echoed by deploy (with or without --apply, confirmed or not, any style, any --adopt) is
+   the plan that plan / preview compute on the same state *)
+Theorem C04_echo_is_preview : forall st confirmed adopt flt w roots D,
+  fst (deploy_cmd st confirmed adopt flt w roots D) = plan (files w) D (managed_for_plan w roots flt).
+Proof. exact echo_is_preview. Qed.
+Print Assumptions C04_echo_is_preview.
+
+(* agentpack's own snapshot directory: a deploy that does not apply leaves the whole world as it
+   is; one that applies appends exactly ONE record (kind deploy, recording the desired state it
+   deployed) and keeps every earlier record unchanged and in place *)
+Theorem C04_snapshots_append_one : forall st confirmed adopt flt w roots D pl out w',
+  deploy_cmd st confirmed adopt flt w roots D = (pl, (out, w')) ->
+  (out <> OApplied /\ w' = w) \/
+  (out = OApplied /\ exists rec, snaps w' = snaps w ++ [rec] /\ sn_kind rec = KDeploy /\
+                                 sn_managed rec = map (fun d => (dtarget d, dpath d, dcontent d)) D /\
+                                 sn_to rec = None).
+Proof. exact deploy_snapshots. Qed.
+Print Assumptions C04_snapshots_append_one.
+
 Example C04_nonvacuous :
   let rc := Build_root (s "codex") [s "h"; s "codex"] false in
   let rz := Build_root (s "zed") [s "h"; s "zed"] false in
@@ -88,4 +107,16 @@ Example C04_nonvacuous :
   fst (snd r) = OApplied /\ map c_path (fst r) = [pa] /\
   files (snd (snd r)) pa = Some (FBytes 2) /\ files (snd (snd r)) pz = Some (FBytes 9) /\
   files (snd (snd r)) (mf_path rz) = None.
+Proof. vm_compute. repeat split; reflexivity. Qed.
+
+(* both branches of C04_snapshots_append_one occur: the confirmed run appends one record, the
+   unconfirmed one is refused and leaves the (empty) record list alone *)
+Example C04_snapshots_nonvacuous :
+  let rc := Build_root (s "codex") [s "h"; s "codex"] false in
+  let pa := [s "h"; s "codex"; s "a.md"] in
+  let w := Build_world (fun _ => None) [] in
+  let D := [Build_dfile (s "codex") pa 2 []] in
+  length (snaps (snd (snd (deploy_cmd SJsonYes true false None w [rc] D)))) = 1%nat /\
+  fst (snd (deploy_cmd SJsonYes false false None w [rc] D)) = OErr code_confirm_required /\
+  length (snaps (snd (snd (deploy_cmd SJsonYes false false None w [rc] D)))) = 0%nat.
 Proof. vm_compute. repeat split; reflexivity. Qed.
